@@ -67,6 +67,18 @@ func replayNative(ps *PropertySpec, v *Violation, wpath string, results []*Harne
 	if spec.Replay == "none" {
 		return "replay-unsupported"
 	}
+	if spec.Replay == "besteffort" {
+		// the harness depends on the virtual clock: a native run that does not reproduce proves nothing
+		st := replayNativeRun(spec, v, wpath)
+		if st == "reproduced" {
+			return st
+		}
+		return "replay-unsupported"
+	}
+	return replayNativeRun(spec, v, wpath)
+}
+
+func replayNativeRun(spec *HarnessSpec, v *Violation, wpath string) string {
 	dir := filepath.Dir(wpath)
 	base := strings.TrimSuffix(filepath.Base(wpath), ".witness.json")
 	// witness in the format the native API reads
